@@ -4,6 +4,7 @@ From Coq Require Import List NArith ZArith Arith Bool.
 From Coq Require String.
 From PyTRS Require Import Engine.Regex Gen.Patterns PyRt.Str Gen.Tables Model.Trs Model.Unpack Model.TractParse
      Model.PlssPre Model.PlssParse Model.Config Model.PlssDesc Proofs.C11.CopyAll Proofs.C13.Config.
+From PyTRS Require Import Proofs.C11.ErrFlag.
 Import ListNotations.
 Import String.StringSyntax.
 Local Open Scope string_scope.
@@ -54,6 +55,16 @@ Proof.
     (eapply deduced_copy_all; [exact Epp | | exact Hp]); [apply deduce_copy_all_no_twprge | apply deduce_copy_all_no_sec]; exact H.
 Qed.
 Print Assumptions C11_deduced.
+
+(* ... and such a fallback is ALWAYS accompanied by an error flag unless both a Twp/Rge and a section were
+   identified: if no Twp/Rge can be matched, or no section, the description carries twprge_error *)
+Theorem C11_fallback_error_flag : forall text d ocr rc segment sec_within ts p ptext fixed,
+  plss_preprocess text d ocr = Ok (ptext, fixed) -> deduce_layout ptext = COPY_ALL ->
+  (finditer twprge_regex twprge_regex_ng ptext = [] \/ finditer multisec_regex multisec_regex_ng ptext = []) ->
+  plss_parser text None d ocr None rc segment sec_within ts = Ok p ->
+  In E_FLAG_TWPRGE_ERR (e_flags (po_flags p)).
+Proof. exact fallback_error_flag. Qed.
+Print Assumptions C11_fallback_error_flag.
 
 Theorem C11_fallback_component : forall chunk layout px c,
   parse_chunk chunk layout px = Ok c -> cp_tc c <> [].
